@@ -414,8 +414,9 @@ func (svr *Server) Serve() error {
 		pktChan <- svr.pktMgr.newOrderedRequest(pkt)
 	}
 
-	close(pktChan) // shuts down sftpServerWorkers
-	wg.Wait()      // wait for all workers to exit
+	close(pktChan)    // shuts down sftpServerWorkers
+	wg.Wait()         // wait for all workers to exit
+	svr.pktMgr.wait() // wait for the responses of the last requests to be sent
 
 	// close any still-open files
 	for handle, file := range svr.openFiles {
